@@ -1,4 +1,5 @@
 import ChythonModel.Model.C05Rules
+import ChythonModel.Model.C05Thiele
 import ChythonModel.Spec.Kekule
 /-!
 Line-protocol driver for C05.
@@ -9,9 +10,12 @@ Line-protocol driver for C05.
 `kekn <molA> <molK> k (<len> <atoms…>)×k`         → `ok norm=<0|1>` | `reject …` | `prep-raise`
                                                      (`prepareRings` → `normalise` → `checkKekule` ∧ `checkMatching`)
 `thi <molK> <molT>`                                → `ok` | `reject …`                 (`checkThiele`)
+`tmono <mol> <len> <ring atoms…>`                  → `<0|1> <kind>`                    (`monoAromatic`, `ringKind`)
+`tnf <molK> k (<len> <atoms…>)×k`                  → `freak` | `<0|1> | <mol wire>`     (`thieleNoFix`)
+`thr <molK> <molT> k (<len> <atoms…>)×k`          → `ok` | `reject`                   (`aromatisedOnlyEligible`)
 `fix <mol> r (c (p (<q> <n>)×p)×c)×r`             → `raise` | `<faithful> <keep> <seen…> | <mol wire>` (`fixRings` over the regenerated table)
 -/
-open ChythonModel.Py ChythonModel.Model ChythonModel.Model.C05 ChythonModel.Spec.Kekule
+open ChythonModel.Py ChythonModel.Model ChythonModel.Model.C05 ChythonModel.Model.C05T ChythonModel.Spec.Kekule
 
 def sortNats (l : List Nat) : List Nat := l.mergeSort fun a b => decide (a ≤ b)
 def commas (l : List Nat) : String := ",".intercalate (l.map toString)
@@ -108,6 +112,9 @@ def parseMaps (xs : List Int) : Option (List (List (List (Nat × Nat))) × List 
   | n :: rest => rules n.toNat rest
   | [] => none
 
+def showKind : RingKind → String
+  | .skip => "skip" | .benzene => "benzene" | .tetra => "tetra" | .pyrrole n => s!"pyrrole:{n}" | .freak => "freak"
+
 def handle (line : String) : String :=
   match words line with
   | [] => "empty"
@@ -156,6 +163,36 @@ def handle (line : String) : String :=
         | some (k, rest) =>
           match Mol.parse rest with
           | some (t, []) => if checkThiele k t then "ok" else s!"reject thiele {explainThi k t}"
+          | _ => "badwire"
+        | none => "badwire"
+      | "tmono" =>
+        match Mol.parse xs with
+        | some (m, len :: rest) =>
+          if rest.length != len.toNat then "badwire" else
+          if !m.WF then "malformed" else
+          let ring := rest.map Int.toNat
+          s!"{if monoAromatic m ring then 1 else 0} {showKind (ringKind m ring)}"
+        | _ => "badwire"
+      | "tnf" =>
+        match Mol.parse xs with
+        | some (k, n :: rest) =>
+          match parseRings n.toNat rest with
+          | some (rings, []) =>
+            if !k.WF then "malformed" else
+            match thieleNoFix k rings with
+            | none => "freak"
+            | some (ret, t) => s!"{if ret then 1 else 0} | {t.render}"
+          | _ => "badwire"
+        | _ => "badwire"
+      | "thr" =>
+        match Mol.parse xs with
+        | some (k, rest) =>
+          match Mol.parse rest with
+          | some (t, n :: rest') =>
+            match parseRings n.toNat rest' with
+            | some (rings, []) =>
+              if !k.WF then "malformed" else if aromatisedOnlyEligible k t rings then "ok" else "reject not-on-candidate-ring"
+            | _ => "badwire"
           | _ => "badwire"
         | none => "badwire"
       | "fix" =>
